@@ -1,2 +1,4 @@
 #!/bin/bash
+# the timednetconn scenario drives the helper package directly: only when the repository has it
+if [ -d "${REPO:-/repo}/pkg/timednetconn" ]; then export VMC_EXTRA_TAGS=tnc; fi
 exec "$(dirname "$0")/../../bin/build-vmc" checks/c14 "$1"
